@@ -48,9 +48,17 @@ Definition eqb_ignoring_options (a b : cfg) : bool :=
 (* One thread / context: the value of the context variable, the tokens held by the `with`
    statements that are open (innermost first: token.old_value), the configurations captured
    by the lazy inverses created so far and by the objects derived from them (in creation order),
-   and the cache of the jitted functions the history owns. *)
-Record tstate := mkT { cur : cfg; stack : list cfg; invs : list cfg; jcache : list (nat * cfg) }.
-Definition init : tstate := mkT default_cfg [] [] [].
+   the cache of the jitted functions the history owns, and the Config OBJECTS built so far and kept
+   ("presets", in build order): of such an object only `_instance` matters - the configuration
+   computed by Config.__init__ = replace(configuration active at BUILD time, kwargs).
+   [The stack discipline does not care whether two frames come from the same Config object: the model
+   follows the code with fixes/C19-config-reentrant.diff (tokens of the open blocks kept per context).
+   The pinned form keeps ONE token per object (`self.token`): there a Config object entered again while
+   its block is open - in any thread - makes the outer exit raise; the harness generates such histories
+   when the code has the fixed form or the fix is on record in KNOWN_FINDINGS.txt.] *)
+Record tstate := mkT { cur : cfg; stack : list cfg; invs : list cfg; jcache : list (nat * cfg);
+                        presets : list cfg }.
+Definition init : tstate := mkT default_cfg [] [] [] [].
 
 (* Ways of deriving a new object from object number i (a lazy inverse or an expression holding one):
    DReduce     an expression holding it is built (the object alone, compositions on either side,
@@ -77,24 +85,28 @@ Inductive event :=
 | ApplyInverse (i : nat) (* inverse number i is applied: which configuration does it use? *)
 | Read                  (* Config.instance() *)
 | Derive (d : derivation) (i : nat)  (* a new object is derived from object i, under the active configuration *)
-| ApplyVia (r : route) (i : nat).    (* object number i is applied through route r *)
+| ApplyVia (r : route) (i : nat)     (* object number i is applied through route r *)
+| Build (k : kw)        (* p = Config(kwargs k): Config.__init__ ALONE, under the active configuration; the object
+                           is kept as the next preset *)
+| EnterP (i : nat).     (* with p_i: __enter__ of preset i - built earlier, possibly under another configuration *)
 
 Definition step (s : tstate) (e : event) : tstate * option cfg :=
   match e with
-  | Enter k => (mkT (replace (cur s) k) (cur s :: stack s) (invs s) (jcache s), None)
+  | Enter k => (mkT (replace (cur s) k) (cur s :: stack s) (invs s) (jcache s) (presets s), None)
   | Exit | ExitExc =>
       match stack s with
-      | old :: st => (mkT old st (invs s) (jcache s), None)
+      | old :: st => (mkT old st (invs s) (jcache s) (presets s), None)
       | [] => (s, None)   (* no open block: excluded by well-nestedness *)
       end
-  | NewInverse => (mkT (cur s) (stack s) (invs s ++ [cur s]) (jcache s), None)
+  | NewInverse => (mkT (cur s) (stack s) (invs s ++ [cur s]) (jcache s) (presets s), None)
   | ApplyInverse i => (s, nth_error (invs s) i)
   | Read => (s, Some (cur s))
   | Derive d i =>
       match nth_error (invs s) i with
       | Some c =>
           (mkT (cur s) (stack s)
-               (invs s ++ [match d with DInvInv => cur s | DReduce | DRoundTrip => c end]) (jcache s),
+               (invs s ++ [match d with DInvInv => cur s | DReduce | DRoundTrip => c end]) (jcache s)
+               (presets s),
            None)
       | None => (s, None)   (* no such object: nothing is derived *)
       end
@@ -106,10 +118,19 @@ Definition step (s : tstate) (e : event) : tstate * option cfg :=
           | RJitArg fn =>
               match jit_lookup cfg_eqb fn c (jcache s) with
               | Some c' => (s, Some c')   (* cache hit: the computation traced for c' runs *)
-              | None => (mkT (cur s) (stack s) (invs s) (jcache s ++ [(fn, c)]), Some c)
+              | None => (mkT (cur s) (stack s) (invs s) (jcache s ++ [(fn, c)]) (presets s), Some c)
               end
           | REager | RJitClosure | RMatrix => (s, Some c)
           end
+      end
+  | Build k =>
+      (* Config.__init__: self._instance = replace(_config_var.get(), **kwargs); nothing is entered *)
+      (mkT (cur s) (stack s) (invs s) (jcache s) (presets s ++ [replace (cur s) k]), None)
+  | EnterP i =>
+      (* Config.__enter__: self.token = _config_var.set(self._instance) - the token holds the value active NOW *)
+      match nth_error (presets s) i with
+      | Some c => (mkT c (cur s :: stack s) (invs s) (jcache s) (presets s), None)
+      | None => (s, None)   (* no such object: excluded by well-nestedness *)
       end
   end.
 
@@ -121,15 +142,29 @@ Fixpoint run (s : tstate) (h : list event) : tstate * list (option cfg) :=
 Definition final (s : tstate) (h : list event) : tstate := fst (run s h).
 Definition observe (s : tstate) (h : list event) : list (option cfg) := snd (run s h).
 
-(* bookkeeping of open blocks (innermost first); None = an exit without a matching enter *)
-Fixpoint track (h : list event) (ks : list kw) : option (list kw) :=
+(* bookkeeping of open blocks (innermost first): a block opened by `with Config(k)` or by `with p_i`.
+   np = number of presets built so far.  None = an exit without a matching enter, or a preset
+   entered before it is built. *)
+Inductive blk := BKw (k : kw) | BPre (i : nat).
+Fixpoint track (np : nat) (h : list event) (ks : list blk) : option (list blk) :=
   match h with
   | [] => Some ks
-  | Enter k :: h' => track h' (k :: ks)
-  | (Exit | ExitExc) :: h' => match ks with _ :: ks' => track h' ks' | [] => None end
-  | _ :: h' => track h' ks
+  | Enter k :: h' => track np h' (BKw k :: ks)
+  | EnterP i :: h' => if Nat.ltb i np then track np h' (BPre i :: ks) else None
+  | Build _ :: h' => track (S np) h' ks
+  | (Exit | ExitExc) :: h' => match ks with _ :: ks' => track np h' ks' | [] => None end
+  | _ :: h' => track np h' ks
   end.
-Definition well_nested (h : list event) : Prop := track h [] = Some [].
+Definition well_nested (np : nat) (h : list event) : Prop := track np h [] = Some [].
+(* the configuration the open blocks ks (innermost first) make active over `base`, given the presets
+   ps: an inline block overrides what is active around it; a preset block makes the preset's own
+   instance active, whatever is around it *)
+Fixpoint active (ps : list cfg) (base : cfg) (ks : list blk) : cfg :=
+  match ks with
+  | [] => base
+  | BKw k :: ks' => replace (active ps base ks') k
+  | BPre i :: ks' => match nth_error ps i with Some c => c | None => active ps base ks' end
+  end.
 
 (* Provenance: for every object (in creation order) the position in the history of the creation
    event its configuration must come from - the NewInverse it descends from through any chain of
@@ -149,17 +184,21 @@ Definition pstep (st : nat * list nat) (e : event) : nat * list nat :=
 Definition prov (h : list event) : list nat := snd (fold_left pstep h (0%nat, [])).
 
 (* Several threads / contexts: each has its own binding of the context variable.
-   Fork t t' : context t' starts as a copy of context t (contextvars.copy_context);
-   a new thread starts from `init` (threading.Thread runs in a fresh context). *)
-Inductive gevent := Ev (t : nat) (e : event) | Fork (t t' : nat) | Spawn (t : nat).
+   Fork t t' : context t' starts as a copy of context t (contextvars.copy_context); the Config objects
+               thread t has built so far are handed to it;
+   Hand t t' : a new thread t' (threading.Thread: a fresh context, the defaults) is handed the Config
+               objects thread t has built so far;
+   Spawn t   : a new thread with nothing handed over starts from `init`. *)
+Inductive gevent := Ev (t : nat) (e : event) | Fork (t t' : nat) | Spawn (t : nat) | Hand (t t' : nat).
 Definition gstate := nat -> tstate.
 Definition upd (g : gstate) (t : nat) (s : tstate) : gstate :=
   fun t' => if Nat.eqb t' t then s else g t'.
 Definition gstep (g : gstate) (e : gevent) : gstate * option (nat * option cfg) :=
   match e with
   | Ev t e => let (s, o) := step (g t) e in (upd g t s, Some (t, o))
-  | Fork t t' => (upd g t' (mkT (cur (g t)) [] [] []), None)
+  | Fork t t' => (upd g t' (mkT (cur (g t)) [] [] [] (presets (g t))), None)
   | Spawn t => (upd g t init, None)
+  | Hand t t' => (upd g t' (mkT default_cfg [] [] [] (presets (g t))), None)
   end.
 Fixpoint grun (g : gstate) (l : list gevent) : gstate * list (nat * option cfg) :=
   match l with
@@ -185,6 +224,7 @@ Definition touches (t : nat) (e : gevent) : bool :=
   | Ev t' _ => Nat.eqb t' t
   | Fork _ t' => Nat.eqb t' t
   | Spawn t' => Nat.eqb t' t
+  | Hand _ t' => Nat.eqb t' t
   end.
 
 (* The EFFECT of a captured configuration on `inverse(y)` (core.py, InverseOperator.mv):
